@@ -205,7 +205,7 @@ pub fn run(args: &Args, sink: &mut Sink, st: &mut Stream) {
     let prev = std::panic::take_hook();
     std::panic::set_hook(Box::new(|_| {}));
     rt.block_on(async {
-        for h in 0..args.vol(4, 40) {
+        for h in 0..args.vol(4, 25) {
             let mrf = *rng.pick(&[4usize, 7, 10, 16]);
             let mut t = Tbl::create(rng.range(5, 40) as usize, mrf).await;
             observe(sink, st, &mut t, &mut rng, false).await;
